@@ -5,3 +5,4 @@ import SmtpV.Props.C08Cut
 #print axioms SmtpV.Props.C08.C08_ends_closed
 #print axioms SmtpV.Props.C08.C08_cut_line_not_executed
 #print axioms SmtpV.Props.C08.C08_cut_line_not_read
+#print axioms SmtpV.Props.C08.C08_cut_ends_loop
